@@ -53,8 +53,12 @@ type ArrObj struct {
 type SliceVal struct {
 	arr *ArrObj // nil for nil slice
 	off int
-	len int
+	len int // when symLen == nil: the length; otherwise the number of physical cells available from off
 	cap int
+	// symLen != nil: the true length is this BV64 term (it may be below or above the physical
+	// cells modelled); symCap likewise for the capacity. Such slices are materialised lazily.
+	symLen *Term
+	symCap *Term
 }
 
 type StructVal struct {
@@ -375,7 +379,41 @@ func (ex *Exec) bytesLess(a, b []*Term) *Term {
 	return r
 }
 
+// mat turns a slice with a symbolic length into one with a concrete length (case split).
+func (ex *Exec) mat(s *SliceVal) *SliceVal {
+	if s == nil || s.symLen == nil {
+		return s
+	}
+	n := int(ex.Concretize(s.symLen, "slice length"))
+	if n > s.len {
+		panic(pathEnd{kind: "bound", msg: fmt.Sprintf("slice of symbolic length materialised at %d elements, beyond the %d modelled cells", n, s.len)})
+	}
+	c := s.cap
+	if s.symCap != nil {
+		if s.symCap == s.symLen {
+			c = n
+		} else {
+			c = int(ex.Concretize(s.symCap, "slice capacity"))
+			if c > s.cap {
+				c = s.cap
+			}
+		}
+	}
+	return &SliceVal{arr: s.arr, off: s.off, len: n, cap: c}
+}
+
+func (ex *Exec) matArgs(args []Value) {
+	for i, a := range args {
+		if sv, ok := a.(*SliceVal); ok && sv != nil && sv.symLen != nil {
+			args[i] = ex.mat(sv)
+		}
+	}
+}
+
 func (ex *Exec) sliceBytes(s *SliceVal) []*Term {
+	if s.symLen != nil {
+		ex.unsupported("engine: slice with symbolic length used without materialisation")
+	}
 	r := make([]*Term, s.len)
 	for i := 0; i < s.len; i++ {
 		r[i] = s.arr.e[s.off+i].(*Term)
